@@ -75,6 +75,22 @@ mod harnesses {
             p += 1;
         }
     }
+    /// a DENSE limiter (many permits per short bucket), where the estimate is smallest: previous bucket full with 10_000 admissions,
+    /// bucket of 1 ms, limit 10_000, half of the current bucket used; the position in the bucket symbolic. The smallest estimate is (0.1 / 10_000) x 1 ms = 10 ns: still not zero.
+    #[kani::proof]
+    fn estimate_wait_positive_when_full_dense() {
+        use std::time::Duration;
+        let limit: usize = 10_000; let current: usize = 5_000;
+        let ratio: f64 = kani::any();
+        kani::assume(ratio >= 0.0 && ratio <= 0.999_999);
+        let p: usize = 10_000;
+        let s = SlidingCounterStateV { limit_for_period: limit, bucket_duration: Duration::from_millis(1), previous_count: p, current_count: current };
+        let weighted = leaf_weighted_count(p, 1.0 - ratio, current);
+        if !(weighted < limit as f64) {
+            let w = s.estimate_wait_time(ratio);
+            assert!(w >= Duration::from_nanos(1));
+        }
+    }
     /// thorough tier: the same bounded check on a wider domain (previous_count 0..=7 enumerated, limit 1..=8)
     #[kani::proof]
     #[kani::unwind(9)]
